@@ -190,9 +190,64 @@ def r_tabletwins(ctx):
                                       % (which, tname, k, b["verdict"], r["verdict"], cfgname))
 
 
+def r_choicetwins(ctx):
+    import copy
+    import absint
+    import valtables as vt
+    from absint import MutList, OPAQUE
+    rid = "C19.choicetwins"
+    ctx.rule(rid, "JSON visit_type under the default configuration and without additional-controls (the function carries a cfg twin of its "
+                  "\"an alternative matched\" block): with an error already recorded before the call, a first alternative that fails and a "
+                  "second that matches, the call returns Ok and leaves exactly the earlier error — for a scalar and for an array document, "
+                  "identically in both configurations (abstract evaluation, visit_type_choice scripted)", floor=4)
+    f = ctx.facts
+    fi = vt.visitor_fn(f, "json", "visit_type")
+    results = {}
+    for cfgname in ("default", "no-additional-controls"):
+        for dk, doc in (("scalar", ("enum", "Value::Number", [vt.json_number(1)])), ("array", ("enum", "Value::Array", [OPAQUE]))):
+            obj = vt.self_obj("json", doc)
+            obj[2]["state"][2].update({"is_multi_type_choice": False, "is_multi_type_choice_type_rule_validating_array": False, "has_feature_errors": False,
+                                       "disabled_features": ("None",)})
+            obj[2]["errors"] = MutList([("str", "earlier error")])
+            calls = []
+
+            def visit_type_choice(run, node, recv, calls=calls):
+                i = len(calls)
+                calls.append(i)
+                if i == 0:
+                    recv[2]["errors"].append(("str", "first alternative does not match"))
+                return ("Ok", ("tuple", []))
+
+            def clone(run, node, recv):
+                if isinstance(recv, tuple) and recv[:2] == ("enum", "Self"):
+                    return copy.deepcopy(recv)
+                return NotImplemented
+            t = ("enum", "Type", {"type_choices": MutList([("enum", "TypeChoice", {"i": 0}), ("enum", "TypeChoice", {"i": 1})])})
+            r = vt.Run(f, "json", cfgname, {}, {"self": obj, "t": t}, scripts={"visit_type_choice": visit_type_choice, "clone": clone})
+            key = "%s|%s" % (cfgname, dk)
+            try:
+                res = r.run(fi.node)
+            except absint.Unknown as e:
+                ctx.incomplete_msg(rid, "%s: %s" % (key, e))
+                continue
+            me = r.it.lookup("self")
+            errs = me[2]["errors"]
+            if absint.has_opaque(res) or not isinstance(errs, (list, MutList)) or absint.has_opaque(list(errs)):
+                ctx.incomplete_msg(rid, "%s: the result / error list could not be evaluated" % key)
+                continue
+            got = (res, [e[1] if isinstance(e, tuple) and e[:1] == ("str",) else repr(e) for e in errs], r.errors)
+            results[key] = got
+            ctx.site(rid, key, fi.file, fi.line, {"errors_after": got[1], "errors_added": got[2]})
+            if got != (("Ok", ("tuple", [])), ["earlier error"], 0):
+                ctx.violation(rid, key, fi.file, fi.line, "json visit_type (%s configuration, %s document): after a failing and a matching alternative the error list is "
+                              "%r (+%d added), result %r; the error recorded before the call must survive and nothing else — under this configuration "
+                              "`uint .and (tstr / int)` changes its verdict" % (cfgname, dk, got[1], got[2], got[0]))
+
+
 def run(ctx):
     ctx.guarded("C19.fmt-twins", r_fmt_twins)
     ctx.guarded("C19.build", r_build)
     ctx.guarded("C19.tabletwins", r_tabletwins)
+    ctx.guarded("C19.choicetwins", r_choicetwins)
     import c09
     ctx.guarded("C19.valtwins", lambda c: c09.r_absent(c, "C19.valtwins", cfgs=("default", "no-ast-span")))
